@@ -104,6 +104,7 @@ def run(ctx, rep):
     valid_size_rules(P, rep, 'R-C17-2v')
     chsize_domain_rule(P, rep, 'R-C17-3d', ctx.tier)
     grow_rule(P, rep, 'R-C17-5')
+    offset_width_rule(P, rep, 'R-C17-1w')
     # parity_chsize itself is decided semantically by R-C17-3d (domain interpretation); no expression-shape rules on it
     g = P.fn('parity_split_is_fixed')
     rep.analysed(g)
@@ -358,3 +359,41 @@ def grow_rule(P, rep, rid):
         else:
             ok = r != 0 and not trunc; what = 'fallocate fails with %s' % OTHER[e]
         rep.check(ok, rid, what, f.file, 'returns %d, calls %s' % (r, calls), function='parity_handle_grow', construct='grow: %s' % what)
+
+
+def offset_width_rule(P, rep, rid):
+    """file offsets are 64-bit quantities: in the block transfer primitives the offset handed to pread / pwrite must not come out of a
+    32-bit multiplication (position * block size overflows at 4 GiB and is widened too late)"""
+    rep.rule(rid, 'block transfer primitives compute position * block_size in 64 bits (no 32-bit multiply, add or shift widened afterwards feeds the offset of pread / pwrite)', 4)
+    for fn, prim in (('handle_read', 'pread'), ('handle_write', 'pwrite'), ('parity_read', 'pread'), ('parity_write', 'pwrite')):
+        f = P.fn(fn)
+        rep.analysed(f)
+        cs = list(f.calls(prim))
+        if not cs:
+            raise AnalysisBroken('%s: %s call not found' % (fn, prim))
+        narrow = []
+        seen = set()
+        def walk(o, depth=0):
+            o = f.strip(o) if False else o
+            if o[0] != 'i' or o[1] in seen or depth > 40:
+                return
+            seen.add(o[1])
+            i = f.insts[o[1]]
+            if i.op in ('zext', 'sext'):
+                src = f.inst_of(i.ops[0])
+                if src is not None and src.op in ('mul', 'shl') and (src.ty or '') in ('i32', 'i16'):
+                    narrow.append('%s computed as %s in %s and widened afterwards' % (f.expr(['i', i.id]), src.op, src.ty))
+            if i.op == 'load':
+                a = f.strip(i.ops[0])
+                if a[0] == 'i' and f.insts[a[1]].op == 'alloca':
+                    for u in f.users.get(a[1], ()):
+                        if u.op == 'store' and f.strip(u.ops[1]) == a:
+                            walk(u.ops[0], depth + 1)
+                return
+            if i.op == 'call':
+                return
+            for x in i.ops:
+                walk(x, depth + 1)
+        for c in cs:
+            walk(c.ops[3])
+        rep.check(not narrow, rid, '%s: offset of %s' % (fn, prim), cs[0].loc(), '64-bit arithmetic' if not narrow else narrow[0] + ': blocks beyond 4 GiB of a file are read / written at the wrong place', function=fn, construct='offset width')
